@@ -8,6 +8,7 @@ require (
 	github.com/jensneuse/abstractlogger v0.0.4
 	github.com/wundergraph/graphql-go-tools/execution v0.0.0
 	github.com/wundergraph/graphql-go-tools/v2 v2.4.4
+	google.golang.org/grpc v1.80.0
 )
 
 require (
@@ -43,7 +44,6 @@ require (
 	golang.org/x/sys v0.46.0 // indirect
 	golang.org/x/text v0.39.0 // indirect
 	google.golang.org/genproto/googleapis/rpc v0.0.0-20260401024825-9d38bb4040a9 // indirect
-	google.golang.org/grpc v1.80.0 // indirect
 	google.golang.org/protobuf v1.36.11 // indirect
 	gopkg.in/cenkalti/backoff.v1 v1.1.0 // indirect
 	gopkg.in/yaml.v3 v3.0.1 // indirect
